@@ -642,6 +642,7 @@ func main() {
 		{"s3Src", []string{"S3Src.lean"}, genS3Src},
 		{"kafkaSrc", []string{"KafkaSrc.lean"}, genKafkaSrc},
 		{"rabbitSrc", []string{"RabbitSrc.lean"}, genRabbitSrc},
+		{"kinesisLoopSrc", []string{"KinesisLoopSrc.lean"}, genKinesisLoopSrc},
 	}
 	status := map[string]interface{}{}
 	failed := 0
